@@ -70,7 +70,7 @@ pub fn s3_multi() -> Scenario
         ]],
         edits: vec![(s("s1"), xy()), (s("s2"), xy())],
         goals: g(&["c1", "c2", "t2"]),
-        tamper: sv(&["t2", "c2"]),
+        tamper: sv(&["t1", "t2", "c2"]),
         ops: OpKinds::all(),
         nondeterministic: false,
         flat_variants: vec![],
@@ -216,6 +216,25 @@ pub fn s7_undeclared3(mask: u8) -> Scenario
     }
 }
 
+/// S7 with a date-preserving command (`cp -p u t1`) and an undeclared input that can be
+/// replaced by an *older* file (restored from a backup): the re-run then leaves a target
+/// whose modification time is not newer than the remembered one
+pub fn s7_preserving() -> Scenario
+{
+    let a = RuleSpec { targets: sv(&["t1"]), sources: sv(&["s"]), lines: vec![Line::CpP { from: s("u"), to: s("t1") }] };
+    Scenario
+    {
+        name: "S7-preserving".into(),
+        variants: vec![vec![a, cat_rule("b", &["s2"])]],
+        edits: vec![(s("s"), xy()), (s("u"), xy()), (s("s2"), xy())],
+        goals: vec![None],
+        tamper: sv(&["t1"]),
+        ops: OpKinds { edit: true, build: true, tamper: true, delete: true, rm_cache: true, backdate: true, ..Default::default() },
+        nondeterministic: true,
+        flat_variants: vec![],
+    }
+}
+
 /// S8: failing and non-producing rules inside a graph with an independent sibling;
 /// variant 1 repairs them; leaves can go missing
 pub fn s8_failures() -> Scenario
@@ -268,9 +287,11 @@ pub fn s9_scope() -> Scenario
             cat_rule("b", &["a", "other"]),
             cat_rule("z", &["other"]),
             multi_rule(&["p", "q"], &["s"], &[&["s"], &["s", "s"]]),
+            // a target whose name starts with a dot, next to an undeclared file with the same name without it
+            cat_rule(".stamp", &["s"]),
         ]],
-        edits: vec![(s("s"), xy()), (s("other"), xy()), (s("notes.txt"), vec![bytes("keep me")])],
-        goals: g(&["a", "b", "q", "absent"]),
+        edits: vec![(s("s"), xy()), (s("other"), xy()), (s("notes.txt"), vec![bytes("keep me")]), (s("stamp"), vec![bytes("not a target")])],
+        goals: g(&["a", "b", "q", "absent", ".stamp"]),
         tamper: sv(&["a", "z"]),
         ops: OpKinds { edit: true, build: true, clean: true, tamper: true, delete: true, ..Default::default() },
         nondeterministic: false,
@@ -375,5 +396,6 @@ pub fn all_scenarios() -> Vec<Scenario>
     let mut v = vec![s1_chain(), s1_chain_xyz(), s2_diamond(), s3_multi(), s3_c18(), s4_twins(), s4_c18(), s5_variants(), s6_exec(), s8_failures(), s9_scope(), s10_bundle(), s11_three(), s12_multiline_failure(), s13_binary()];
     for m in 0..4 { v.push(s7_undeclared(m)); }
     for m in 0..8 { v.push(s7_undeclared3(m)); }
+    v.push(s7_preserving());
     v
 }
